@@ -25,11 +25,12 @@ import (
 )
 
 type Clause struct {
-	Kind  string // requires ensures invariant modifies decreases ghost assume-entry ...
-	Label string
-	Text  string
-	Line  int
-	File  string
+	Expanded bool   // Text is already macro-expanded and ==>-rewritten
+	Kind     string // requires ensures invariant modifies decreases ghost assume-entry ...
+	Label    string
+	Text     string
+	Line     int
+	File     string
 }
 
 type Block struct {
@@ -98,6 +99,7 @@ func normKey(recv, name string) string {
 func ParseContracts(files []string) (*Contracts, error) {
 	cs := &Contracts{Blocks: map[string]*Block{}, Macros: map[string]*Macro{}}
 	var lastMacro *Macro
+	var twins []twinDecl
 	for _, f := range files {
 		fh, err := os.Open(f)
 		if err != nil {
@@ -161,6 +163,23 @@ func ParseContracts(files []string) (*Contracts, error) {
 				lastClause = nil
 				continue
 			}
+			if strings.HasPrefix(body, "twin ") {
+				// twin <A> <B> [prop Cxx]: B gets copies of all blocks of A (same clauses; parameters must have the same names)
+				fs := strings.Fields(strings.TrimPrefix(body, "twin "))
+				if len(fs) < 2 {
+					return nil, fmt.Errorf("%s:%d: bad twin", f, ln)
+				}
+				tw := twinDecl{a: fs[0], b: fs[1], file: f, line: ln}
+				for j := 2; j+1 < len(fs); j += 2 {
+					if fs[j] == "prop" {
+						tw.prop = fs[j+1]
+					}
+				}
+				twins = append(twins, tw)
+				cur = nil
+				lastClause = nil
+				continue
+			}
 			if strings.HasPrefix(body, "lemma ") {
 				rest := strings.TrimPrefix(body, "lemma ")
 				// lemma <name> prop Cxx [vars a Int, b Val]: text
@@ -220,7 +239,7 @@ func ParseContracts(files []string) (*Contracts, error) {
 				} else {
 					cur.Opts[rest] = "true"
 				}
-			case "requires", "ensures", "invariant", "modifies", "decreases", "ghost", "ghostset", "ghostinit", "ghostbefore", "assume", "hint", "ensures@panic", "callpure", "frame", "assert":
+			case "requires", "ensures", "invariant", "modifies", "decreases", "ghost", "ghostset", "ghostinit", "ghostbefore", "assume", "hint", "ensures@panic", "callpure", "frame", "assert", "after":
 				cl := Clause{Kind: kw, Text: rest, Line: ln, File: f}
 				if m := labelRe.FindStringSubmatch(rest); m != nil && kw != "modifies" && kw != "ghost" && kw != "ghostset" && kw != "ghostinit" && kw != "ghostbefore" {
 					cl.Label = m[1]
@@ -234,7 +253,48 @@ func ParseContracts(files []string) (*Contracts, error) {
 		}
 		fh.Close()
 	}
+	for _, tw := range twins {
+		ka := twinKey(tw.a)
+		kb := twinKey(tw.b)
+		found := false
+		for _, b := range append([]*Block(nil), cs.Order...) {
+			if b.Key != ka {
+				continue
+			}
+			found = true
+			nb := &Block{Key: kb, Sub: b.Sub, Prop: b.Prop, Arith: b.Arith, Trusted: b.Trusted, Pure: b.Pure, File: tw.file, Line: tw.line, Opts: map[string]string{}}
+			for k, v := range b.Opts {
+				nb.Opts[k] = v
+			}
+			nb.Opts["twin-of"] = ka
+			if tw.prop != "" {
+				nb.Prop = tw.prop
+			}
+			nb.Clauses = append([]Clause(nil), b.Clauses...)
+			if cs.Blocks[kb+"#"+b.Sub] != nil {
+				return nil, fmt.Errorf("%s:%d: twin target %s already has a block", tw.file, tw.line, kb)
+			}
+			cs.Blocks[kb+"#"+b.Sub] = nb
+			cs.Order = append(cs.Order, nb)
+		}
+		if !found {
+			return nil, fmt.Errorf("%s:%d: twin source %s has no block", tw.file, tw.line, tw.a)
+		}
+	}
 	return cs, nil
+}
+
+type twinDecl struct {
+	a, b, prop, file string
+	line             int
+}
+
+func twinKey(s string) string {
+	m := funcHdrRe.FindStringSubmatch("func " + s)
+	if m == nil {
+		return s
+	}
+	return normKey(m[1], m[2])
 }
 
 // ==> is not Go; rewrite "a ==> b" (right associative, lowest precedence) into imp(a, b).
